@@ -148,6 +148,9 @@ def setContent (rw : Rune → Int) (s : WS) (x y : Int) (m : Rune) (c : List Run
 /-- screen.go:397 `baseScreen.Fill` -/
 def fill (s : WS) (r : Rune) (st : Style) : WS := { s with cells := s.cells.fill r st }
 
+/-- `baseScreen.Fill` on the tree of variant `fz` (CellBuffer.Fill repaired by fixes/C09-fill-zero-width.patch when `fz`) -/
+def fillV (fz : Bool) (rw : Rune → Int) (s : WS) (r : Rune) (st : Style) : WS := { s with cells := s.cells.fillV fz rw r st }
+
 /-- the loops of screen.go:424 `LockRegion`, as the list of cells visited in order -/
 def regionCells (x y w h : Int) : List (Int × Int) :=
   (List.range h.toNat).flatMap fun (j : Nat) => (List.range w.toNat).map fun (i : Nat) => (x + (i : Int), y + (j : Int))
